@@ -22,3 +22,4 @@ def run(col, configs, tier):
         guarded_soft(col, X.rule_empty_number_exit, facts)
         guarded_soft(col, X.rule_required_sign_enforced, facts)
         guarded_soft(col, X.rule_empty_component_counts_digits, facts)
+        guarded_soft(col, X.rule_absent_punctuation_guarded, facts)
